@@ -203,6 +203,7 @@ class Recorder:
         self.page_size = None
         self.factor = None
         self.calls = []      # per apply call: {"limit_before", "n_in", "n_out"}
+        self.idcols = None   # when set: also record the identity of every raw input row
         self.installed = {"driver_init": False, "apply": False}
 
     def install(self):
@@ -229,6 +230,11 @@ class Recorder:
             def apply(self_, rows):
                 rows = list(rows)
                 entry = {"limit_before": getattr(self_, "_limit", "?"), "n_in": len(rows), "n_out": 0, "pp": bool(self_)}
+                if rec.idcols:
+                    try:
+                        entry["raw"] = [[r._mapping[c] for c in rec.idcols] for r in rows]
+                    except Exception:  # noqa: BLE001
+                        entry["raw"] = None
                 rec.calls.append(entry)
                 for r in orig_apply(self_, rows):
                     entry["n_out"] += 1
@@ -245,3 +251,251 @@ class Recorder:
 
 
 REC = Recorder()
+
+
+# ------------------------------------------------------------------------------------------------------------
+# query execution
+# ------------------------------------------------------------------------------------------------------------
+
+def _err(e):
+    return {"err": fixture.err_class(e), "msg": str(e)[:200]}
+
+
+def _ident(obj, spec):
+    """Identity of one result row as a list of ints/strings."""
+    kind = spec["result"]
+    if kind == "data_ids":
+        return [obj[c] for c in spec["idcols"]]
+    if kind == "records":
+        did = obj.dataId
+        return [did[c] for c in spec["idcols"]]
+    if kind == "datasets":
+        return [obj.dataId[c] for c in spec["idcols"]] + [obj.run]
+    raise ValueError(kind)
+
+
+def _ctx_result(q, spec, order=True):
+    args = []
+    if spec.get("data_id") is not None:
+        args.append(spec["data_id"])
+    if spec.get("where"):
+        args.append(spec["where"])
+    kw = spec.get("kwargs") or {}
+    kind = spec["result"]
+    if kind == "data_ids":
+        r = q.where(*args, **kw).data_ids(spec["dims"])
+    elif kind == "records":
+        r = q.where(*args, **kw).dimension_records(spec["element"])
+    elif kind == "datasets":
+        r = q.datasets(spec["dataset_type"], collections=spec["collections"], find_first=spec.get("find_first", True)).where(*args, **kw)
+    else:
+        raise ValueError(kind)
+    if order and spec.get("order_by"):
+        r = r.order_by(*spec["order_by"])
+    return r
+
+
+def _observe(r, spec, rec_ids):
+    """iteration + counts + anys of one result object; every part maps exceptions to the error enum"""
+    out = {}
+    REC.take()
+    REC.idcols = rec_ids
+    try:
+        out["ids"] = [_ident(x, spec) for x in r]
+    except Exception as e:  # noqa: BLE001
+        out["ids"] = _err(e)
+    REC.idcols = None
+    out["trace"] = REC.take()
+    cs = []
+    for exact, discard in ((True, True), (True, False), (False, False)):
+        try:
+            cs.append(r.count(exact=exact, discard=discard))
+        except Exception as e:  # noqa: BLE001
+            cs.append(_err(e))
+    out["counts"] = cs
+    an = []
+    for execute, exact in ((True, True), (True, False), (False, False), (False, True)):
+        try:
+            an.append(bool(r.any(execute=execute, exact=exact)))
+        except Exception as e:  # noqa: BLE001
+            an.append(_err(e))
+    out["anys"] = an
+    REC.take()
+    return out
+
+
+def case_ctx(butler, case):
+    """butler.query() context API: unlimited observation, then one observation per limit."""
+    spec = case["q"]
+    REC.page_size, REC.factor = case.get("page"), case.get("factor")
+    out = {"limits": {}}
+    try:
+        with butler.query() as q:
+            base = _ctx_result(q, spec)
+            out["full"] = _observe(base, spec, spec.get("rawcols"))
+            for lim in case.get("limits", []):
+                out["limits"][str(lim)] = _observe(base.limit(lim), spec, spec.get("rawcols"))
+            if case.get("unordered"):
+                out["unordered"] = _observe(_ctx_result(q, spec, order=False), spec, None)
+    except Exception as e:  # noqa: BLE001
+        out["error"] = _err(e)
+    finally:
+        REC.page_size = REC.factor = None
+    return out
+
+
+class _WarnCatcher:
+    def __init__(self):
+        import logging
+
+        class H(logging.Handler):
+            def __init__(s):
+                super().__init__(level=logging.WARNING)
+                s.hits = 0
+
+            def emit(s, record):
+                if "requested limit" in record.getMessage():
+                    s.hits += 1
+
+        self.h = H()
+        self.logger = logging.getLogger("lsst.daf.butler")
+
+    def __enter__(self):
+        import logging
+        logging.disable(logging.NOTSET)
+        self.old_level = self.logger.level
+        self.logger.setLevel(logging.WARNING)
+        self.logger.addHandler(self.h)
+        return self.h
+
+    def __exit__(self, *a):
+        import logging
+        self.logger.removeHandler(self.h)
+        self.logger.setLevel(self.old_level)
+        logging.disable(logging.WARNING)
+
+
+def case_butler(butler, case):
+    """Butler.query_data_ids / query_datasets / query_dimension_records with limit (incl. negative) and explain."""
+    spec = case["q"]
+    REC.page_size, REC.factor = case.get("page"), case.get("factor")
+    out = {"limits": {}}
+    kw = dict(spec.get("kwargs") or {})
+    common = dict(data_id=spec.get("data_id"), where=spec.get("where") or "", order_by=spec.get("order_by") or None)
+    try:
+        for lim, explain in case["limits"]:
+            with _WarnCatcher() as h:
+                try:
+                    if spec["result"] == "data_ids":
+                        got = butler.query_data_ids(spec["dims"], limit=lim, explain=explain, **common, **kw)
+                    elif spec["result"] == "records":
+                        got = butler.query_dimension_records(spec["element"], limit=lim, explain=explain, **common, **kw)
+                    else:
+                        got = butler.query_datasets(spec["dataset_type"], collections=spec["collections"],
+                                                    find_first=spec.get("find_first", True), limit=lim, explain=explain, **common, **kw)
+                    ids = [_ident(x, spec) for x in got]
+                except Exception as e:  # noqa: BLE001
+                    ids = _err(e)
+            out["limits"][f"{lim}:{int(explain)}"] = {"ids": ids, "warned": h.hits > 0}
+            REC.take()
+    finally:
+        REC.page_size = REC.factor = None
+    return out
+
+
+def _legacy_result(butler, spec, order=True):
+    reg = butler.registry
+    kw = dict(spec.get("kwargs") or {})
+    if spec["result"] == "data_ids":
+        r = reg.queryDataIds(spec["dims"], dataId=spec.get("data_id"), where=spec.get("where") or "", **kw)
+    elif spec["result"] == "records":
+        r = reg.queryDimensionRecords(spec["element"], dataId=spec.get("data_id"), where=spec.get("where") or "", **kw)
+    else:
+        raise ValueError(spec["result"])
+    if order and spec.get("order_by"):
+        r = r.order_by(*spec["order_by"])
+    return r
+
+
+def _observe_legacy(mk, spec):
+    out = {}
+    try:
+        out["ids"] = [_ident(x, spec) for x in mk()]
+    except Exception as e:  # noqa: BLE001
+        out["ids"] = _err(e)
+    try:
+        out["counts"] = [mk().count(exact=True, discard=True)]
+    except Exception as e:  # noqa: BLE001
+        out["counts"] = [_err(e)]
+    try:
+        out["anys"] = [bool(mk().any(execute=True, exact=True))]
+    except Exception as e:  # noqa: BLE001
+        out["anys"] = [_err(e)]
+    return out
+
+
+def case_legacy(butler, case):
+    """registry.queryDataIds / queryDimensionRecords (.order_by().limit() mutate in place: fresh object every time)."""
+    spec = case["q"]
+    out = {"limits": {}}
+    try:
+        out["full"] = _observe_legacy(lambda: _legacy_result(butler, spec), spec)
+        for lim in case.get("limits", []):
+            out["limits"][str(lim)] = _observe_legacy(lambda: _legacy_result(butler, spec).limit(lim), spec)
+    except Exception as e:  # noqa: BLE001
+        out["error"] = _err(e)
+    return out
+
+
+def case_spell(butler, case):
+    """The same constraint as data ID + kwargs / kwargs only / where string / data ID only, through three interfaces."""
+    spec = case["q"]
+    d, kwd, merged, wstr = case["d"], case["kw"], case["merged"], case["where"]
+    variants = [
+        dict(spec, data_id=d, kwargs=kwd, where=""),
+        dict(spec, data_id=None, kwargs=merged, where=""),
+        dict(spec, data_id=None, kwargs={}, where=wstr),
+        dict(spec, data_id=merged, kwargs={}, where=""),
+    ]
+    REC.page_size = case.get("page")
+    out = {"ctx": [], "butler": [], "legacy": []}
+    try:
+        for v in variants:
+            try:
+                with butler.query() as q:
+                    out["ctx"].append(sorted(_ident(x, v) for x in _ctx_result(q, v)))
+            except Exception as e:  # noqa: BLE001
+                out["ctx"].append(_err(e))
+            sub = case_butler(butler, {"q": v, "limits": [[None, False]], "page": case.get("page")})
+            ids = sub["limits"]["None:0"]["ids"]
+            out["butler"].append(sorted(ids) if isinstance(ids, list) else ids)
+            if spec["result"] != "datasets":
+                try:
+                    out["legacy"].append(sorted({tuple(_ident(x, v)) for x in _legacy_result(butler, v)}))
+                except Exception as e:  # noqa: BLE001
+                    out["legacy"].append(_err(e))
+    finally:
+        REC.page_size = None
+    return out
+
+
+def run_cases(payload):
+    """Worker entry point: build the repository once, run every case, remove the repository."""
+    t0 = time.time()
+    root = fixture.new_root("c16")
+    out = {"results": [], "installed": None}
+    try:
+        butler = build_repo(root)
+        REC.install()
+        out["installed"] = REC.installed
+        out["build_s"] = round(time.time() - t0, 2)
+        for case in payload["cases"]:
+            fn = {"ctx": case_ctx, "butler": case_butler, "legacy": case_legacy, "spell": case_spell}[case["kind"]]
+            try:
+                out["results"].append(fn(butler, case))
+            except Exception as e:  # noqa: BLE001
+                out["results"].append({"error": _err(e)})
+    finally:
+        fixture.cleanup(root)
+    out["wall_s"] = round(time.time() - t0, 2)
+    return out
